@@ -135,6 +135,8 @@ fn child_main(args: &[String]) -> i32 {
   match args.first().map(|s| s.as_str()) {
     // C18: the HTTP service from the working tree on 127.0.0.1:<port>, until killed
     Some("c18-server") => c18::server_child(&args[1..], &input),
+    // C05: a batch of parse / evaluate cases that may abort the process
+    Some("c05") => c05::child(&args[1..], &input),
     // C12: a batch of model-loading cases that may abort the process
     Some("c12") => c12::child(args, &input),
     _ => {
